@@ -13,6 +13,7 @@ T_LowerOf == ("F" :> "f") @@ ("É" :> "é") @@ ("B" :> "b") @@ ("Q" :> "q")
 DevIdeal == {}
 DevExact == {"IncludedNamesMatchedExactly"}
 DevStale == {"MemoNotClearedInLoop"}
+DevNoReseed == {"MarkedNotReseeded"}
 NoArgs == {}
 
 CONSTANTS MaxN, Combos, MaxRedirects
@@ -69,12 +70,59 @@ CombosQ2 == {<<"A", "mixed">>, <<"B", "mixed2">>}
 CombosAll == {"A", "B"} \X {"exact", "lower", "under", "mixed", "mixed2"}
 CombosExact == {<<"A", "exact">>}
 CombosB == {<<"B", "mixed">>}
+CombosB2 == {<<"B", "mixed2">>}
 
 \* (nested quantifiers, not one big set: TLC enumerates them lazily)
 MCInit ==
   \E n \in 1..MaxN : \E rd \in RedirFns(n) : \E E \in SUBSET EdgePairs(n, rd) :
     \E F \in SUBSET (1..n) : \E c \in Combos : AInit(MkWorld(n, rd, E, F, c))
 MCSpec == MCInit /\ [][ANext]_avars /\ WF_avars(ANext)
+
+(* ---------------- histories: analyse, edit, analyse again ---------------- *)
+\* The last analysed world W2 is any world of the bound; the history says how its last
+\* page (a new row goes to the end of the table, an overwritten row keeps its place) came
+\* to be after the first analysis:
+\*   absent     - it did not exist (a template added later, e.g. by an overwrite file)
+\*   premarked  - the same, added with need_pre_expand=True
+\*   plain      - it was a plain unflagged text and is overwritten by its final form
+\*   wasflagged - it was flagged and is overwritten by a text that is not (stale marks)
+CONSTANT HistKinds
+KindsAll == {"absent", "premarked", "plain", "wasflagged"}
+KindsQ == {"absent"}
+EarlyWorld(W, kind) ==
+  LET n == Len(W.pages) IN
+  CASE kind \in {"absent", "premarked"} -> [pages |-> SubSeq(W.pages, 1, n - 1)]
+    [] kind = "plain" -> [pages |-> [W.pages EXCEPT ![n] = WPage(@.title, NoRedirect, {}, FALSE)]]
+    [] kind = "wasflagged" -> [pages |-> [W.pages EXCEPT ![n] = [@ EXCEPT !.flag = TRUE]]]
+History(W, kind) ==
+  LET t == W.pages[Len(W.pages)].title IN
+  [pages |-> EarlyWorld(W, kind).pages,
+   next |-> [world |-> [pages |-> W.pages], reset |-> {t},
+             set |-> IF kind = "premarked" THEN {t} ELSE {}]]
+\* all kinds on the worlds of up to MaxN - 1 pages, HistKinds on those of MaxN pages
+MCHInit ==
+  \E n \in 1..MaxN : \E rd \in RedirFns(n) : \E E \in SUBSET EdgePairs(n, rd) :
+    \E F \in SUBSET (1..n) : \E c \in Combos : \E kind \in (IF n < MaxN THEN KindsAll ELSE HistKinds) :
+      /\ (kind = "wasflagged") => (n \notin F /\ rd[n] = 0)
+      /\ AInit(History(MkWorld(n, rd, E, F, c), kind))
+MCHSpec == MCHInit /\ [][AHNext]_avars /\ WF_avars(AHNext)
+\* calls on a database with arbitrary earlier marks (any subset of the pages)
+MCPInit ==
+  \E n \in 1..MaxN : \E rd \in RedirFns(n) : \E E \in SUBSET EdgePairs(n, rd) :
+    \E F \in SUBSET (1..n) : \E P \in SUBSET (1..n) : \E c \in Combos :
+      LET W == MkWorld(n, rd, E, F, c) IN AInit(WithPre(W, {W.pages[k].title : k \in P}))
+MCPSpec == MCPInit /\ [][ANext]_avars /\ WF_avars(ANext)
+
+\* the witness of the as-is deviation MarkedNotReseeded: Foo is flagged, Bar includes Foo,
+\* both get marked; Qx, which includes Bar, is added afterwards; the second call must mark it
+DemoHistory ==
+  LET a == WPage(<<"Template:", "F", "oo">>, NoRedirect, {}, TRUE)
+      b == WPage(<<"Template:", "B", "ar">>, NoRedirect, {<<"F", "oo">>}, FALSE)
+      c == WPage(<<"Template:", "Q", "x">>, NoRedirect, {<<"B", "ar">>}, FALSE) IN
+  [pages |-> <<a, b>>,
+   next |-> [world |-> [pages |-> <<a, b, c>>], reset |-> {c.title}, set |-> {}]]
+DemoHInit == AInit(DemoHistory)
+DemoHSpec == DemoHInit /\ [][AHNext]_avars /\ WF_avars(AHNext)
 
 \* hand-made world for the Demo configurations: B <-> C include each other, B includes
 \* the flagged A by its lower-case spelling
